@@ -280,8 +280,9 @@ def run_property(mod, tier: str, seed: int, replay: str | None = None, runs_over
         sys.stderr.write(pr.stderr[-2000:])
         alt_rc = pr.returncode
         coverage["alt_hashseed_run"] = {"PYTHONHASHSEED": 20011, "runs": n_alt, "exit": alt_rc}
-        simkit.write_evidence(prop, tier, seed, mod.LEVEL, coverage, mod.ASSUMPTIONS,
-                              simkit.real_monotonic() - t0, len(new_sigs) + (1 if alt_rc == 1 else 0))
+        if not os.environ.get("VERIF_NO_EVIDENCE"):
+            simkit.write_evidence(prop, tier, seed, mod.LEVEL, coverage, mod.ASSUMPTIONS,
+                                  simkit.real_monotonic() - t0, len(new_sigs) + (1 if alt_rc == 1 else 0))
         if alt_rc == 2:
             return 2
     print(f"{prop} {tier}: runs={len(uniq)} nontrivial-distinct={len(digests)} "
